@@ -114,6 +114,21 @@ def _bool_atom_pos(t):
     return None
 
 
+def subst_atom(atom, mapping, subst_params):
+    """Rename the parameters occurring in an atom (callee summary -> caller terms)."""
+    h = atom[0]
+    if h == "EQ":
+        a, b = order_pair(subst_params(atom[1], mapping), subst_params(atom[2], mapping))
+        return ("EQ", a, b)
+    if h == "CMP":
+        return ("CMP", atom[1], subst_params(atom[2], mapping), subst_params(atom[3], mapping))
+    if h in ("VARIANT", "INT"):
+        return (h, subst_params(atom[1], mapping))
+    if h == "PRED":
+        return ("PRED", atom[1], tuple(subst_params(x, mapping) for x in atom[2]))
+    return atom
+
+
 def atom_deps(atom):
     """(call-site blocks, phi locals) an atom's meaning depends on."""
     calls, phis = set(), set()
@@ -195,8 +210,10 @@ class GEA:
                     self.atoms.setdefault(atom, []).append(bb)
             elif discr_ty == "bool":
                 info.update(kind="bool")
-                ba = bool_atom(term)
-                if ba is not None and ba[0] != "const":
+                ba = self.norm_bool(term)
+                if ba is not None and ba[0] == "setatom":
+                    self.atoms.setdefault(ba[1], []).append(bb)
+                elif ba is not None and ba[0] != "const":
                     self.atoms.setdefault(ba[0], []).append(bb)
             else:
                 atom = ("INT", term)
@@ -244,6 +261,108 @@ class GEA:
                         calls |= self._mutator_bbs[l]
         return calls, phis
 
+    # ------------------------------------------------------------ bool normalisation
+    def norm_bool(self, term):
+        """bool_atom plus:  x == Enum::UnitVariant  (derived PartialEq on a field-less variant) is the
+        same atom as a match on x."""
+        neg = False
+        t = term
+        while t[0] == "unop" and t[1] == "Not":
+            neg = not neg
+            t = t[2]
+        if t[0] == "call" and t[1] in EQ_CALLEES and len(t[3]) == 2:
+            for x, y in ((t[3][0], t[3][1]), (t[3][1], t[3][0])):
+                if y[0] == "agg" and isinstance(y[1], tuple) and y[1][0] == "adt" and not y[2]:
+                    adt = self._enum(y[1][1])
+                    if adt is not None and len(adt) > 1 and x[0] != "agg":
+                        names = frozenset(adt)
+                        eq = EQ_CALLEES[t[1]] != neg
+                        atom = ("VARIANT", P.strip_ok_preserving(x))
+                        v = y[1][2]
+                        std = y[1][1] in P.STD_SUM_TYPES
+                        v = norm_variant_name(v) if std else v
+                        others = frozenset(norm_variant_name(n) if std else n for n in names) - {v}
+                        if len(others) == 1:
+                            o = next(iter(others))
+                            return (atom, v, o) if eq else (atom, o, v)
+                        # multi-valued complement: represented by a set-valued refinement
+                        return ("setatom", atom, frozenset([v]), others) if eq else ("setatom", atom, others, frozenset([v]))
+        return bool_atom(term)
+
+    def _enum(self, path):
+        """Variant names of a workspace enum whose variants are all field-less, else None."""
+        prog = self.body.prog
+        for (u, d), a in prog.adts.items():
+            full = d if "::" in d and d.split("::")[0] in path else d
+            if path == d or path.endswith("::" + d) or d.endswith(path.split("::", 1)[-1]):
+                if a["kind"] == "Enum" and all(not v["fields"] for v in a["variants"]):
+                    return [v["name"] for v in a["variants"]]
+        return None
+
+    def predicate_summary(self, term):
+        """[(valuation, bool)] for a call of a workspace-local function returning bool whose body is
+        a pure combination of comparisons of its parameters; None if not applicable."""
+        if term[0] != "call":
+            return None
+        prog = self.body.prog
+        key = term[1]
+        callee = prog.bodies.get(key) or prog.bodies.get("bin:" + key)
+        if callee is None or callee.key == self.body.key:
+            return None
+        if callee.locals[0]["ty"] != "bool" or callee.kind not in ("Fn", "AssocFn"):
+            return None
+        cache = getattr(prog, "_pred_cache", None)
+        if cache is None:
+            cache = prog._pred_cache = {}
+        if key not in cache:
+            cache[key] = self._summarise_predicate(callee)
+        raw = cache[key]
+        if raw is None:
+            return None
+        from .effects import subst_params
+        mapping = {i + 1: a for i, a in enumerate(term[3])}
+        out = []
+        for sval, res in raw:
+            nv = {}
+            for atom, vs in sval.items():
+                nv[subst_atom(atom, mapping, subst_params)] = vs
+            out.append((nv, res))
+        return out
+
+    def _summarise_predicate(self, callee):
+        # purity: only comparison / predicate / logging callees
+        for bb, t in callee.calls():
+            d = t["callee"].get("def", "")
+            if d in EQ_CALLEES or d in PRED_CALLEES or d in OPTION_PREDS or d.startswith("core::cmp::PartialOrd::") \
+                    or d in P.TRANSPARENT or is_log_span(t["span"]) or d.startswith("core::fmt::") or d.startswith("log::"):
+                continue
+            return None
+        try:
+            g = GEA(callee, max_states=20000)
+        except StateSpaceExceeded:
+            return None
+        out = []
+        for site in g.prov.defsites.get(0, []):
+            term = g.prov.def_term(site)
+            for val in g.vals_at(site):
+                rt = g.resolve_phis(term, val)
+                atoms = {a: vs for a, vs in val.items() if a[0] != "def"}
+                if rt[0] == "const" and isinstance(rt[2], bool):
+                    out.append((atoms, rt[2]))
+                    continue
+                ba = g.norm_bool(rt)
+                if ba is None or ba[0] in ("const", "setatom"):
+                    return None
+                atom, vt, vf = ba
+                for v, res in ((vt, True), (vf, False)):
+                    cur = atoms.get(atom)
+                    if cur is not None and v not in cur:
+                        continue
+                    a2 = dict(atoms)
+                    a2[atom] = frozenset([v])
+                    out.append((a2, res))
+        return out or None
+
     # ------------------------------------------------------------ exploration
     def _kill(self, val, call_bb=None, local=None):
         dead = []
@@ -258,40 +377,45 @@ class GEA:
         for a in dead:
             del val[a]
 
-    def resolve_phis(self, term, val):
-        """Substitute tracked multi-def locals by the definition selected in `val` (where known)."""
+    def resolve_phis(self, term, val, _busy=frozenset()):
+        """Substitute tracked multi-def locals by the definition selected in `val` (where known).
+        A loop-carried variable whose selected definition mentions the variable itself (x = x - 1)
+        stays symbolic: the inner occurrence denotes the previous value."""
         if not isinstance(term, tuple) or not term:
             return term
         h = term[0]
         if h == "phi":
             sel = val.get(("def", term[1]))
-            if sel is not None and len(sel) == 1:
+            if sel is not None and len(sel) == 1 and term[1] not in _busy:
                 site = next(iter(sel))
                 if site[0] == "param":
                     return ("param", term[1], term[2])
-                return self.resolve_phis(self.prov.def_term(site), val)
+                dt = self.prov.def_term(site)
+                if term[1] in P.phi_locals(dt):
+                    return term
+                return self.resolve_phis(dt, val, _busy | {term[1]})
             return term
         if h in ("ok", "err"):
-            return (h, self.resolve_phis(term[1], val))
+            return (h, self.resolve_phis(term[1], val, _busy))
         if h == "mut":
-            return (h, term[1], term[2], self.resolve_phis(term[3], val))
+            return (h, term[1], term[2], self.resolve_phis(term[3], val, _busy))
         if h in ("field", "variant"):
-            inner = self.resolve_phis(term[1], val)
+            inner = self.resolve_phis(term[1], val, _busy)
             if h == "field":
                 return P.mk_field(inner, term[2])
             return P.mk_variant(inner, term[2], "core::option::Option" if len(term) == 4 else None)
         if h == "call":
-            return (h, term[1], term[2], tuple(self.resolve_phis(a, val) for a in term[3]))
+            return (h, term[1], term[2], tuple(self.resolve_phis(a, val, _busy) for a in term[3]))
         if h == "agg":
-            return (h, term[1], tuple((n, self.resolve_phis(v, val)) for n, v in term[2]))
+            return (h, term[1], tuple((n, self.resolve_phis(v, val, _busy)) for n, v in term[2]))
         if h == "binop":
-            return (h, term[1], self.resolve_phis(term[2], val), self.resolve_phis(term[3], val))
+            return (h, term[1], self.resolve_phis(term[2], val, _busy), self.resolve_phis(term[3], val, _busy))
         if h == "unop":
-            return (h, term[1], self.resolve_phis(term[2], val))
+            return (h, term[1], self.resolve_phis(term[2], val, _busy))
         if h == "cast":
-            return (h, self.resolve_phis(term[1], val), term[2], term[3])
+            return (h, self.resolve_phis(term[1], val, _busy), term[2], term[3])
         if h == "discr":
-            return (h, self.resolve_phis(term[1], val)) + tuple(term[2:])
+            return (h, self.resolve_phis(term[1], val, _busy)) + tuple(term[2:])
         return term
 
     def _switch_succ(self, bb, val):
@@ -320,18 +444,65 @@ class GEA:
             return out
         # bool
         term = info["term"]
-        ba = bool_atom(term)
-        if ba is None and P.phi_locals(term):
-            ba = bool_atom(self.resolve_phis(term, val))
+        # a bool computed into a local first (`let ok = a || b; if !ok`): resolve which definition reaches;
+        # loop variables *inside* comparisons stay symbolic (atoms are about the current value of the variable)
+        t0 = term
+        while t0[0] == "unop" and t0[1] == "Not":
+            t0 = t0[2]
+        if t0[0] == "phi":
+            term = self.resolve_phis(term, val)
         false_t = None
         for a in t["arms"]:
             if a["v"] == "0":
                 false_t = a["t"]
         true_t = t["otherwise"]
+        # a call of a workspace-local pure predicate: split on its summary (helper-extracted guards)
+        pterm, pneg = term, False
+        while pterm[0] == "unop" and pterm[1] == "Not":
+            pterm, pneg = pterm[2], not pneg
+        summ = self.predicate_summary(pterm)
+        if summ is not None:
+            out = []
+            for sval, res in summ:
+                res = (not res) if pneg else res
+                merged = dict(val)
+                okm = True
+                for atom, vs in sval.items():
+                    cur = merged.get(atom)
+                    nv = vs if cur is None else (vs & cur)
+                    if not nv:
+                        okm = False
+                        break
+                    merged[atom] = nv
+                    if atom not in self.atoms:
+                        self.atoms[atom] = [bb]
+                tg = true_t if res else false_t
+                if okm and tg is not None:
+                    out.append((tg, merged))
+            return out
+        ba = self.norm_bool(term)
+        if ba is not None and ba[0] not in ("const", "setatom") and ba[0] not in self.atoms:
+            self.atoms[ba[0]] = [bb]
         if ba is None:
             return [(x, val) for x in targets]
         if ba[0] == "const":
             return [((true_t if ba[1] else false_t), val)]
+        if ba[0] == "setatom":
+            _, atom, st_true, st_false = ba
+            if atom not in self.atoms:
+                self.atoms[atom] = [bb]
+            cur = val.get(atom)
+            out = []
+            for tg, vs in ((true_t, st_true), (false_t, st_false)):
+                if tg is None:
+                    continue
+                nv = vs if cur is None else (vs & cur)
+                if not nv:
+                    continue
+                v2 = dict(val)
+                v2[atom] = nv
+                out.append((tg, v2))
+            return out
         atom, vt, vf = ba
         cur = val.get(atom)
         out = []
